@@ -129,6 +129,9 @@ func (p *copyProp) Gen(r *Rand, tier string, idx int) any {
 	if cp.SrcKind == "file" || cp.DstKind == "file" {
 		o.Titles = true
 	}
+	if p.id == "C01" && cp.DstKind == "file" && cp.SrcKind != "file" && r.Chance(0.3) {
+		o.AliasNames = true // two different blobs may claim one file name: the copy must fail, not lose one
+	}
 	if cp.SrcKind != "memory" || cp.DstKind != "memory" {
 		// stores keyed by digest cannot hold the same bytes under two media types as two nodes
 		o.NoTwins = true
@@ -716,6 +719,20 @@ func checkClosed(env *copyEnv, class string) *Verdict {
 	return nil
 }
 
+// titlesCollide reports whether two different blobs of the graph carry the same file name.
+func titlesCollide(g *Graph) bool {
+	seen := map[string]int{}
+	for _, n := range g.Nodes {
+		if t := n.Spec.Title; t != "" {
+			if o, ok := seen[t]; ok && g.Canon(o) != g.Canon(n.ID) {
+				return true
+			}
+			seen[t] = n.ID
+		}
+	}
+	return false
+}
+
 func sameContent(a, b ocispec.Descriptor) bool {
 	return a.MediaType == b.MediaType && a.Digest == b.Digest && a.Size == b.Size
 }
@@ -922,6 +939,12 @@ func (p *copyProp) runInBubble(rc *RunCtx, sc *Scenario, cp *CopyParams, g *Grap
 			return nil
 		}
 		if ex.err != nil {
+			if errors.Is(ex.err, file.ErrDuplicateName) && titlesCollide(g) {
+				// two different blobs under one file name: the file store refuses the second
+				info.Probes["duplicate_name_refused"]++
+				info.Outcome = "legit-refusal"
+				return nil
+			}
 			return violation("unexpected-error", "", "fault-free %s failed: %v", cp.API, ex.err)
 		}
 		if v := checkComplete(env, lower, "missing-node"); v != nil {
